@@ -56,6 +56,13 @@ func (dec *Decoder) fastReadStringAsBytes(utf16Length int) (data []byte) {
 			return
 		}
 	}
+	if off > len(buf) {
+		// the last character is cut off by the end of the input
+		if dec.Error == nil {
+			dec.Error = ErrInvalidUTF8
+		}
+		off = len(buf)
+	}
 	dec.head += off
 	return buf[:off]
 }
@@ -89,7 +96,15 @@ func (dec *Decoder) readStringAsBytes(utf16Length int) (data []byte, safe bool) 
 		}
 		if !safe {
 			safe = true
-			data = make([]byte, 0, utf16Length*3)
+			// a hint only: the declared length is not trusted with a large or
+			// negative allocation, append grows the slice as bytes arrive
+			capacity := utf16Length * 3
+			if capacity < 0 {
+				capacity = 0
+			} else if capacity > maxPrealloc {
+				capacity = maxPrealloc
+			}
+			data = make([]byte, 0, capacity)
 		}
 		data = append(data, buf...)
 		// the last character may be cut by the end of the buffer: fetch the bytes
@@ -130,7 +145,7 @@ func (dec *Decoder) readStringAsSafeBytes(utf16Length int) []byte {
 
 // ReadStringAsBytes reads string as bytes.
 func (dec *Decoder) ReadStringAsBytes() (data []byte) {
-	data = dec.readStringAsSafeBytes(dec.ReadInt())
+	data = dec.readStringAsSafeBytes(dec.readCount())
 	dec.Skip()
 	return
 }
@@ -156,14 +171,14 @@ func (dec *Decoder) readSafeString(utf16Length int) (s string) {
 
 // ReadUnsafeString reads unsafe string.
 func (dec *Decoder) ReadUnsafeString() (s string) {
-	s = dec.readUnsafeString(dec.ReadInt())
+	s = dec.readUnsafeString(dec.readCount())
 	dec.Skip()
 	return
 }
 
 // ReadSafeString reads safe string.
 func (dec *Decoder) ReadSafeString() (s string) {
-	s = dec.readSafeString(dec.ReadInt())
+	s = dec.readSafeString(dec.readCount())
 	dec.Skip()
 	return
 }
